@@ -10,6 +10,10 @@ JAR = "/opt/veriftools/tla/tla2tools.jar:/opt/veriftools/tla/CommunityModules-de
 GOENV = dict(os.environ, GOFLAGS="-mod=mod", GOPROXY="off", GOSUMDB="off", GOTOOLCHAIN="local")
 
 
+import itertools
+_ctr = itertools.count()
+
+
 class Inconclusive(Exception):
     pass
 
@@ -30,7 +34,7 @@ def mkwork(name):
 def tlc(module, cfg, work, workers=1, heap="4g", timeout=1800, extra=(), out=None, stack=None, props=()):
     """Run TLC on spec/<module>.tla with config file `cfg` (path). Returns (rc, output path)."""
     meta = os.path.join(work, "meta-" + os.path.basename(cfg))
-    tmp = os.path.join(work, "jtmp")
+    tmp = os.path.join(work, "jtmp-" + os.path.basename(cfg) + "-%d" % next(_ctr))
     os.makedirs(tmp, exist_ok=True)
     out = out or os.path.join(work, os.path.basename(cfg) + ".out")
     cmd = ["java", "-Xmx" + heap, "-XX:+UseParallelGC", "-Djava.io.tmpdir=" + tmp]
